@@ -613,8 +613,19 @@ func buildSetEvents(id string, task *Task, updates map[string]string, agentID st
 		stateWasSet = true
 	}
 
+	// Clearing a claim without a state change must not leave doing/error unclaimed.
+	if claimWasSet && claimValue == "" && !stateWasSet {
+		if err := validateClaimInvariant(task.State, ""); err != nil {
+			return nil, nil, err
+		}
+	}
+
 	// If claim was set to a non-empty value and state wasn't explicitly set, default to doing
 	if claimWasSet && claimValue != "" && !stateWasSet {
+		// The implied transition obeys the same table as an explicit state=doing.
+		if err := validateTransition(task.State, stateDoing); err != nil {
+			return nil, nil, err
+		}
 		event, err := newEvent("state", now, StateEvent{
 			ID:       id,
 			NewState: stateDoing,
